@@ -5,6 +5,7 @@ package harness
 import (
 	"fmt"
 	"runtime/debug"
+	"strings"
 	"testing"
 	"time"
 
@@ -403,6 +404,106 @@ func init() { registerReplay("C18", propC18) }
 const c18Rule = "rapid-generated: adapter (ProtoCloner, CodecCloner(proto), CloneFunc(ProtoCloner.Clone), CopyFunc(ProtoCloner.Copy)) x op (Clone, Copy) x source of 8 message types (test Message incl. maps/Any/unknown fields, HttpTrailer, Struct, Any, Timestamp, Empty, StringValue, BytesValue) in generated or dynamic representation x destination (empty, pre-populated, other representation empty/pre-populated, different message type, pointer to a non-proto struct); " +
 	"oracle: result equals the source (compared through the generated type), source bytes unchanged, flipping every reachable byte of the copy leaves the source intact and vice versa, destination holds exactly the source content, different type / non-proto => non-nil error and no shared memory; generated<->dynamic must succeed except for CloneFunc (an error is accepted there, a silent wrong copy is not); never a panic; " +
 	"non-trivial = pre-populated / cross-representation / refusal destination, or a dynamic source; distinct by case hash"
+
+// c18Decodes: do the bytes decode as the type in both representations (what build needs)?
+func c18Decodes(v c18Val) bool {
+	if proto.Unmarshal(v.Bytes, c18New(v.Type)) != nil {
+		return false
+	}
+	if v.Type == "msg" || v.Type == "trailer" {
+		return dynamic.NewMessage(c18Desc(v.Type)).Unmarshal(v.Bytes) == nil
+	}
+	return true
+}
+
+// c18HasUnknownDeep: does the generated decoding keep any unknown field, at any depth?
+func c18HasUnknownDeep(m protoreflect.Message) bool {
+	if len(m.GetUnknown()) > 0 {
+		return true
+	}
+	found := false
+	m.Range(func(fd protoreflect.FieldDescriptor, v protoreflect.Value) bool {
+		switch {
+		case fd.IsMap():
+			if fd.MapValue().Message() != nil {
+				v.Map().Range(func(_ protoreflect.MapKey, mv protoreflect.Value) bool {
+					found = found || c18HasUnknownDeep(mv.Message())
+					return !found
+				})
+			}
+		case fd.IsList():
+			if fd.Message() != nil {
+				for i := 0; i < v.List().Len() && !found; i++ {
+					found = c18HasUnknownDeep(v.List().Get(i).Message())
+				}
+			}
+		case fd.Message() != nil:
+			found = c18HasUnknownDeep(v.Message())
+		}
+		return !found
+	})
+	return found
+}
+
+// FuzzCloner: coverage-guided search over message contents given as wire bytes (unknown fields,
+// non-canonical encodings, repeated scalars, nested garbage) for every adapter, operation and destination.
+func FuzzCloner(f *testing.F) {
+	seeds := [][]byte{{}, {0x08, 0x01}, {0x0a, 0x03, 1, 2, 3}, {0x10, 0x05, 0x18, 0x07}, {0xa8, 0x1f, 0x01}, {0x08, 0x01, 0x08, 0x02}, {0x0a, 0x00}, {0x12, 0x02, 0x08, 0x01}}
+	for i, b := range seeds {
+		f.Add(uint16(i*37), b, seeds[(i+3)%len(seeds)])
+		f.Add(uint16(i*101+7), b, []byte{})
+	}
+	adapters := []string{"proto", "codec", "clonefunc", "copyfunc"}
+	dsts := []string{"empty", "filled", "other-repr", "other-repr-filled", "other-type", "non-proto"}
+	f.Fuzz(func(t *testing.T, sel uint16, src, fill []byte) {
+		c := c18Case{Adapter: adapters[int(sel)%4], Op: []string{"clone", "copy"}[int(sel>>2)%2]}
+		typ := c18Types[int(sel>>3)%len(c18Types)]
+		dynOK := typ == "msg" || typ == "trailer"
+		c.Src = c18Val{Type: typ, Dyn: dynOK && (sel>>7)&1 == 1, Bytes: src}
+		if !c18Decodes(c.Src) {
+			t.Skip()
+		}
+		if c.Op == "copy" {
+			c.Dst = dsts[int(sel>>8)%len(dsts)]
+			if !dynOK && strings.HasPrefix(c.Dst, "other-repr") {
+				c.Dst = "filled"
+			}
+			switch c.Dst {
+			case "filled", "other-repr-filled":
+				c.DstFill = c18Val{Type: typ, Bytes: fill}
+			case "other-type":
+				other := c18Types[(int(sel>>3)+1+int(sel>>11)%3)%len(c18Types)]
+				if other == typ {
+					other = "empty"
+					if typ == "empty" {
+						other = "msg"
+					}
+				}
+				c.DstFill = c18Val{Type: other, Bytes: fill, Dyn: (other == "msg" || other == "trailer") && (sel>>15)&1 == 1}
+			}
+			if c.DstFill.Type != "" && !c18Decodes(c.DstFill) {
+				t.Skip()
+			}
+		}
+		if c.Src.Dyn || strings.HasPrefix(c.Dst, "other-repr") || c.DstFill.Dyn {
+			// a field that arrives with another wire type than declared is kept as unknown by generated
+			// messages and reinterpreted by dynamic.Message; with both representations in play only
+			// contents that both read alike are in the domain
+			for _, v := range []c18Val{c.Src, c.DstFill} {
+				if v.Type != "" {
+					g := c18New(v.Type)
+					proto.Unmarshal(v.Bytes, g)
+					if c18HasUnknownDeep(g.ProtoReflect()) {
+						t.Skip()
+					}
+				}
+			}
+		}
+		if o := propC18(c); o.Fail != "" {
+			t.Fatalf("C18: %s", o.Fail)
+		}
+	})
+}
 
 func TestC18(t *testing.T) {
 	runProp(t, "C18", c18Rule, genC18, propC18)
